@@ -141,6 +141,17 @@ CHECKS["C12"] = dict(
     technique="Lean 4 proof (list congruence for the line layer; simulation of the stack machine under level renumbering) + pinned-source tie + metamorphic differential testing of the clause layer",
     design="5/C12")
 
+CHECKS["C08"] = dict(
+    text="Lean 4 over the emitted schema: refs_resolve (every $ref names an $anchor of the same schema), oneOf_nonempty, "
+         "anchors_from_names (every $anchor is a data name or REDEFINES-<data name>, hence legal when names are), C06.declOk for "
+         "DEPENDING ON references, declared_is_delivered for every USAGE (partial: pictures both sides classify alike; full statement "
+         "machine-refuted = D13), ext_type_matches. Both json_type ladders are EXTRACTED from the source and proved equal to the model. "
+         "Real schemas are checked with jsonschema's 2020-12 validator, loaded, references resolved, declarations and delivered types compared.",
+    note="Trusted: Lean kernel, extract.py; jsonschema's validator stands for the meta-schema (the model's validity covers the keywords the "
+         "generator emits); names start with a letter; COMP-1/COMP-2 declared but not decoded by the code.",
+    technique="Lean 4 proof (mutual induction over the emitted schema) + semantic extraction tie (json_type ladders) + differential/oracle checks with jsonschema",
+    design="5/C08")
+
 NOT_APPLICABLE = {
 }
 
